@@ -84,10 +84,10 @@ Definition consume_is_delete (su : racesetup) : bool :=
    in the order of the request indexes (`fwd`) or in the reverse order: a callback id is continued with a
    policy that succeeds, which yields a code; every code is redeemed at the token endpoint.  Counted: the
    TOKEN RESPONSES that come out of the one request_uri. *)
-Definition e2e_policy : pol_reply := PolSuccess "alice" "openid email" [].
+Definition e2e_policy : pol_reply := PolSuccess "alice" "openid email" [] [].
 Definition e2e_redirect : string := "https://c1.example/cb".
 Definition e2e_treq (code : id) : treq :=
-  mkTReq rc_cred no_bind "" code e2e_redirect 0%N PkEmpty 0%N HgOk BaApprove [] AsNone.
+  mkTReq rc_cred no_bind "" code e2e_redirect 0%N PkEmpty 0%N HgOk BaApprove [] AsNone None.
 
 (* what request i of the race was handed: (callback id, code) - 0 for none *)
 Definition handed (p : prog obs) : id * id :=
